@@ -168,6 +168,7 @@ def scramble(h, codes, trace=None, warmup=None):
          (e is inserted again should the call have removed it)
       8  remove a hyperedge, ask the queries, insert it again (the last mutation is an insertion)
       9  insert an extra hyperedge, ask the queries, remove it (the last mutation is a removal)
+     11  (unweighted containers) a REJECTED insertion: add a new hyperedge with weight 3
      10  (Hypergraph) replace the first listed hyperedge e by e + {Z} and shrink it back with
          remove_node(Z, keep_edges=True) (no merge: e is absent at that moment)
     Nodes, hyperedges, weights and metadata are the same before and after.
@@ -180,7 +181,9 @@ def scramble(h, codes, trace=None, warmup=None):
         z = fresh_label(nodes)
         edges = list(h.get_edges())
         a = sorted(nodes, key=repr)[0]
-        code = code % 11
+        code = code % 12
+        if code == 11 and h.is_weighted():
+            code = 7
         if code == 10 and (kind != "Hypergraph" or z is None or not edges):
             code = 4
         if code == 7 and kind not in ("Hypergraph", "DirectedHypergraph"):
@@ -193,7 +196,7 @@ def scramble(h, codes, trace=None, warmup=None):
         if code == 2 and hasattr(h, "copy"):
             h = h.copy()
             step = "copy()"
-        elif code in (5, 8, 9) and edges and len(nodes) >= 2:
+        elif code in (5, 8, 9, 11) and edges and len(nodes) >= 2:
             import itertools
             variant = code
             e = edges[0]
@@ -231,7 +234,17 @@ def scramble(h, codes, trace=None, warmup=None):
                     raise
                 except Exception:  # noqa: the warm-up only populates caches
                     pass
-            if other is not None:
+            if other is not None and variant == 11:
+                # a REJECTED insertion: an unweighted container refuses a weight other than 1
+                # (ValueError) -- the new hyperedge must not linger anywhere
+                try:
+                    add(other, weight=3)
+                except ValueError:
+                    step = "rejected insertion of %r with weight 3 (unweighted)" % (other,)
+                else:
+                    rem(other)
+                    step = "insertion of %r with weight 3 accepted (unweighted), removed" % (other,)
+            elif other is not None:
                 w, m = get(e)
                 back = dict(weight=w) if h.is_weighted() else {}
                 if variant == 5:
@@ -414,7 +427,7 @@ def history_codes(*parts):
     if int(d[0], 16) < 8:
         return []
     n = 1 + int(d[1], 16) % 3
-    return [int(d[2 + 2 * i:4 + 2 * i], 16) % 11 for i in range(n)]
+    return [int(d[2 + 2 * i:4 + 2 * i], 16) % 12 for i in range(n)]
 
 
 def default_warmup(h):
